@@ -16,7 +16,7 @@ def optStrs (j : Json) (k : String) : R (Option (List String)) :=
   match optField j k with | some v => some <$> asList asStr v | none => pure none
 
 def asSpec (j : Json) : R FSpec := do
-  return { kind := ← asStr (← field j "kind"), pre := ← boolD j "pre" false }
+  return { kind := ← asStr (← field j "kind"), pre := ← boolD j "pre" false, skip := ← strsD j "skip" }
 
 def asGlyph (j : Json) : R GlyphD := do
   return { name := ← asStr (← field j "name"), contours := ← boolD j "contours" false,
@@ -110,6 +110,7 @@ def stageName : Stage → String
   | .dsCopy => "deepcopyExceptFonts"
   | .dsAlias => "designspace-inplace"
   | .dsWrite n _ => n
+  | .drop srcs names => s!"del{srcs}{names}"
   | .reset => "reset"
 
 /-- merge the writes per cell: must if any write to the cell is certain; stage of the first write -/
